@@ -280,8 +280,8 @@ Qed.
 Lemma hexdigit_ok n : n < 16 -> is_hexdigit (hexdigit n) = true /\ unhexdigit (hexdigit n) = n.
 Proof.
   intros Hn.
-  assert (H : (fun n => negb (n <? 16) || (is_hexdigit (hexdigit n) && (unhexdigit (hexdigit n) =? n))) n = true).
-  { apply byte_sweep; [vm_compute; reflexivity | lia]. }
+  pose proof (byte_sweep (fun n => negb (n <? 16) || (is_hexdigit (hexdigit n) && (unhexdigit (hexdigit n) =? n)))
+                (eq_refl true <: _ = true) n ltac:(lia)) as H.
   cbv beta in H. assert (n <? 16 = true) as E by lia. rewrite E in H. cbn [negb orb] in H.
   apply andb_true_iff in H as [H1 H2]. apply N.eqb_eq in H2. split; assumption.
 Qed.
